@@ -47,3 +47,9 @@ for t in ('DT_YMD', 'DT_YD', 'DT_YWD', 'DT_DAISY'):
     G('dm.dt_dcmp.' + t[3:], 'date-core', 'dt_dcmp', ['C08'], ins=[(U, 'in_typ'), ('uint32_t', 'in_u1'), ('uint32_t', 'in_u2')], fix={'in_typ': t},
       setup='struct dt_d_s d1 = {DT_DUNK}, d2 = {DT_DUNK}; d1.typ = d2.typ = (dt_dtyp_t)in_typ; d1.u = in_u1; d2.u = in_u2;', call='dt_dcmp(d1, d2)', ret='int',
       replace=['__ymcw_cmp/UNREACH___ymcw_cmp'], solvers=SV, timeout=600, sweep={'in_u1': 'RND', 'in_u2': 'RND'})
+G('dm.__yd_fixup', 'date-core', '__yd_fixup', ['C04'], ins=[('uint32_t', 'in_u')], setup='dt_yd_t d; d.u = in_u;', call='__yd_fixup(d)', ret='dt_yd_t', replace=['__get_ydays'], sweep={'in_u': SWD})
+UNR = lambda *fs: ['%s/UNREACH_%s' % (f, f) for f in fs]
+G('dm.dt_dadd_m', 'date-core', 'dt_dadd_m', ['C04'], ins=[('uint32_t', 'in_u'), ('int', 'in_n')], setup='struct dt_d_s d = {DT_DUNK}; d.typ = DT_YMD; d.u = in_u;', call='dt_dadd_m(d, in_n)', ret='struct dt_d_s',
+  replace=['__ymd_add_m'] + UNR('__ymcw_add_m', '__bizda_add_m'), solvers=SV, sweep={'in_u': SWY, 'in_n': '(int)(RND % 2000) - 1000'})
+G('dm.dt_dadd_y', 'date-core', 'dt_dadd_y', ['C04'], ins=[('uint32_t', 'in_u'), ('int', 'in_n')], setup='struct dt_d_s d = {DT_DUNK}; d.typ = DT_YMD; d.u = in_u;', call='dt_dadd_y(d, in_n)', ret='struct dt_d_s',
+  replace=['__ymd_add_y'] + UNR('__ymcw_add_y', '__bizda_add_y', '__ywd_add_y', '__yd_add_y'), solvers=SV, sweep={'in_u': SWY, 'in_n': '(int)(RND % 200) - 100'})
